@@ -80,6 +80,9 @@ type VerifListing struct {
 	Sig         *SignatureHeader
 	Items       []VerifItem
 	Tail        error // io.EOF = clean end; other = error reading the next object
+	// mode "det": the object after the header read as a []byte
+	DetachedSig    []byte
+	DetachedSigErr error
 }
 
 func verifSkip(msg []byte, k int) (*msgpackStream, error) {
@@ -97,7 +100,7 @@ func verifSkip(msg []byte, k int) (*msgpackStream, error) {
 	return mps, nil
 }
 
-// VerifListPackets lists msg for mode "enc", "signcrypt" or "sig".
+// VerifListPackets lists msg for mode "enc", "signcrypt", "sig" or "det".
 func VerifListPackets(mode string, msg []byte) (l VerifListing) {
 	mps := newMsgpackStream(bytes.NewReader(msg))
 	headerBytes := []byte{}
@@ -126,6 +129,12 @@ func VerifListPackets(mode string, msg []byte) (l VerifListing) {
 		version = h.Version
 	}
 	l.HeaderState = "ok"
+	if mode == "det" {
+		var sig []byte
+		_, l.DetachedSigErr = mps.Read(&sig)
+		l.DetachedSig = sig
+		return l
+	}
 	if mode != "signcrypt" && version.Major != 1 && version.Major != 2 {
 		l.HeaderState = "badmajor"
 		return l
